@@ -861,7 +861,7 @@ fn gen_case(rng: &mut Rng, cfg: &Cfg) -> Case {
     let unbonding_secs = *rng.pick(&[1u64, 60, 60, 3600]);
     let nops = 3 + rng.usize(p.ops);
     let admin_bias = cfg.property == "C12" || rng.chance(1, 4);
-    let plain_accounts = if rng.chance(1, if cfg.property == "C12" || cfg.property == "C05" { 3 } else { 6 }) { 1 + rng.below(2) as u8 } else { 0 };
+    let plain_accounts = if rng.chance(1, if cfg.property == "C12" || cfg.property == "C05" { 3 } else { 6 }) { 1 + rng.below(3) as u8 } else { 0 };
     let plain_accounts = plain_accounts.min(n_accounts.saturating_sub(1) as u8);
     // the favourite admin: account 0, or (half of the runs that have one) the plain-named "owner"
     let admin_acct = if plain_accounts > 0 && rng.chance(1, 2) { n_accounts - 1 } else { 0 };
